@@ -7,6 +7,7 @@ import Rooc.Syntax.Wire
 import Rooc.Syntax.Parse
 import Rooc.Syntax.Program
 import Rooc.Syntax.Ref
+import Rooc.Drv.C09
 namespace Rooc.Drv.C11
 open Rooc Sexp Rooc.Syntax
 
@@ -29,6 +30,16 @@ def linkOk (e : PExp) : Bool :=
      | .ok ts => ts == fmtToks e
      | .unsupported => true)
 
+def rawOpaque (p : RawProgram) : Bool :=
+  let es : List PExp :=
+    p.objective.body.toList
+      ++ p.constraints.flatMap (fun c => [c.lhs, c.rhs] ++ c.iters
+          ++ (match c.name with | some (.compound _ idx) => idx | _ => []))
+      ++ p.constants.map (·.2)
+      ++ p.domains.flatMap (fun d => (d.args.getD []) ++ d.iters
+          ++ d.vars.flatMap (fun | .compound _ idx => idx | _ => []))
+  C09.hasOpaqueList es
+
 /-- model requests for C11: `(format <premodel>)` → the text `RoocParser::format` prints for that `PreModel`. -/
 def handle (α : Type) [Arith α] [Wire α] : List Sexp → Sexp
   | [.atom "format", m] =>
@@ -44,14 +55,21 @@ def handle (α : Type) [Arith α] [Wire α] : List Sexp → Sexp
         then app "err" [.atom "program-token-link-broken"]
         else app "ok" [.str m.text]
     | none => app "err" [.atom "decode"]
-  -- `(parse-program "<text>")` → the `PreModel` the program-level parser model reads (fragment without iterations)
+  -- `(parse-program "<text>")` → the `PreModel` the program-level parser model reads, or the class of the rejection
   | [.atom "parse-program", .str s] =>
-    match parseProgramText s.toList with
-    | .ok m => app "ok" [m.enc]
-    | .err .reject => app "err" [.atom "reject"]
-    | .err .panic => app "err" [.atom "panic"]
-    | .err .fuel => app "err" [.atom "fuel"]
+    match lex s.toList with
     | .unsupported => app "err" [.atom "unsupported"]
+    | .ok toks =>
+      match parseProgramRaw toks with
+      | .error .reject => app "err" [.atom "reject", .atom "peg"]
+      | .error .panic => app "err" [.atom "panic"]
+      | .error .fuel => app "err" [.atom "fuel"]
+      | .ok raw =>
+        match buildProgram raw with
+        | .error e => app "err" [.atom "reject", .atom e]
+        | .ok m =>
+          if rawOpaque raw then app "err" [.atom "unsupported"]
+          else app "ok" [m.enc, .atom (if printable m then "in-fragment" else "out-of-fragment")]
   | _ => app "err" [.atom "bad-request"]
 
 /-! ### oracle: the property itself on the implementation's output -/
